@@ -186,6 +186,23 @@ def check_exact(case, acc):
     got = as_complex(val)
     if abs(got - ref) > tol:
         bad("get_expectation_value", "value", {"got": got, "ref": ref})
+    if bname == "cirq":
+        # the operator, the circuit and the initial vector belong to the caller: unchanged afterwards, and the very same objects give
+        # the same value again
+        acc.ev()
+        if dict(qop.terms) != dict(mk_op(op).terms):
+            bad("get_expectation_value", "operator-argument-modified", {"after": repr(dict(qop.terms))[:300]})
+        elif [SV.desc(g) for g in c._gates] != [SV.desc(g) for g in mk_circ(prep)._gates] or c.width != mk_circ(prep).width:
+            bad("get_expectation_value", "circuit-argument-modified", {"after": [SV.desc(g) for g in c._gates]})
+        elif init is not None and not np.array_equal(np.asarray(init_be), SV.to_order(init, n, order)):
+            bad("get_expectation_value", "initial_statevector-argument-modified", {})
+        else:
+            try:
+                again = as_complex(be.get_expectation_value(qop, c, initial_statevector=init_be, **kw))
+            except Exception as e:
+                again = None
+            if again is None or abs(again - got) > tol:
+                bad("get_expectation_value", "second-call-with-the-same-arguments-differs", {"first": got, "second": again})
     id_only = sum(c_ for w, c_ in op if set(w) == {"I"})
     if abs(ref - id_only) > 1e-6:
         acc.nt((bname, route, prep["w"], op))
